@@ -252,6 +252,26 @@ func buildOverlay(repo, verif, out string) (string, *rewriteStats, error) {
 					if !ok || tv.Type == nil {
 						return true
 					}
+					if _, isChan := tv.Type.Underlying().(*types.Chan); isChan {
+						// for v := range ch { ... }  ->  for { v, ok := recv(ch); if !ok { break }; ... }
+						hi, okh := helperFor(s.X)
+						if !okh {
+							st.ChanOpsUnhooked = append(st.ChanOpsUnhooked, site(s.Pos())+":range")
+							return true
+						}
+						hdr := ""
+						switch {
+						case s.Key == nil:
+							hdr = fmt.Sprintf("for { _, verifOk_ := verifRecv2_%d(%s); if !verifOk_ { break };", hi, text(s.X))
+						case s.Tok == token.DEFINE:
+							hdr = fmt.Sprintf("for { %s, verifOk_ := verifRecv2_%d(%s); if !verifOk_ { break };", text(s.Key), hi, text(s.X))
+						default:
+							hdr = fmt.Sprintf("for { var verifOk_ bool; %s, verifOk_ = verifRecv2_%d(%s); if !verifOk_ { break };", text(s.Key), hi, text(s.X))
+						}
+						edits = append(edits, edit{off(s.Pos()), off(s.Body.Lbrace) + 1, hdr})
+						st.ChanSendsHooked = append(st.ChanSendsHooked, site(s.Pos())+":range")
+						return true
+					}
 					mt, isMap := tv.Type.Underlying().(*types.Map)
 					if !isMap {
 						return true
